@@ -354,7 +354,79 @@ pub fn render(d: &str) -> Bytes {
     }
 }
 
+/// bstream-gauge: `rotonda_bmp_num_connected_routers` as /metrics renders it, before the connection,
+/// while it is up (Initiation + Peer Up read, next read pending) and after it was lost.
+fn gauge_probe() {
+    fn gauge(fx: &StreamFixture) -> String {
+        fx.metrics_prometheus().lines().filter(|l| l.starts_with("rotonda_bmp_num_connected_routers")).map(|l| l.rsplit(' ').next().unwrap_or("?").to_string()).collect::<Vec<_>>().join(",")
+    }
+    let evs = vec![Ev::Bytes(render("I").to_vec()), Ev::Bytes(render("U.0.1").to_vec())];
+    runtime().block_on(async move {
+        let (hang_tx, hang_rx) = tokio::sync::oneshot::channel();
+        let stats = Arc::new(Stats::default());
+        let reader = ScriptReader { evs, idx: 0, off: 0, hang: true, eof_reads: 0, stats, hang_tx: Some(hang_tx) };
+        let fx = Arc::new(StreamFixture::new("198.51.100.1:11019".parse().unwrap()).await);
+        let before = gauge(&fx);
+        let fx2 = fx.clone();
+        let task = tokio::spawn(async move { fx2.run(reader).await });
+        let _ = hang_rx.await;
+        let during = gauge(&fx);
+        tokio::time::sleep(std::time::Duration::from_millis(5)).await;
+        fx.terminate().await;
+        let _ = tokio::time::timeout(std::time::Duration::from_secs(3), task).await;
+        let ups: Vec<String> = fx.updates().iter().map(|u| show_update(&fx, u)).collect();
+        println!("connected-routers before:{before} up:{during} after-connection-lost:{} updates:{}", gauge(&fx), ups.join(" "));
+    });
+}
+
+/// bstream-e2e <close|reset|shutdown|short> [cut]: the same connection over a real loopback TCP
+/// stream through the real accept_config of unit.rs: Initiation, Peer Up, an announcement (cut after
+/// `cut` bytes if given), then the client closes / resets the connection, or the unit is shut down, or
+/// a header with length field 0 is sent. Prints whether the router is still in router_states /
+/// router_info afterwards (what GET /routers/ lists) and the updates that left the gate.
+fn e2e(mode: &str, cut: Option<usize>) {
+    use tokio::io::AsyncWriteExt;
+    let mut bytes: Vec<u8> = vec![];
+    for d in ["I", "U.0.1", "R.0.0.1.1+2.0.-"] { bytes.extend_from_slice(&render(d)); }
+    if let Some(c) = cut { bytes.truncate(c.min(bytes.len())); }
+    if mode == "short" { bytes.extend_from_slice(&[3, 0, 0, 0, 0]); }
+    let mode = mode.to_string();
+    runtime().block_on(async move {
+        let listener = tokio::net::TcpListener::bind("127.0.0.1:0").await.expect("loopback");
+        let addr = listener.local_addr().unwrap();
+        let mut client = tokio::net::TcpStream::connect(addr).await.unwrap();
+        let (server, peer) = listener.accept().await.unwrap();
+        let mut fx = StreamFixture::new(peer).await;
+        let before = fx.listed();
+        fx.accept(server);
+        client.write_all(&bytes).await.unwrap();
+        client.flush().await.unwrap();
+        tokio::time::sleep(std::time::Duration::from_millis(30)).await;
+        let during = fx.listed();
+        match mode.as_str() {
+            "close" => drop(client),
+            "reset" => { client.set_linger(Some(std::time::Duration::from_secs(0))).unwrap(); drop(client) }
+            "shutdown" => { fx.terminate().await; tokio::time::sleep(std::time::Duration::from_millis(50)).await; drop(client) }
+            _ => { tokio::time::sleep(std::time::Duration::from_millis(50)).await; }
+        }
+        let mut after = fx.listed();
+        for _ in 0..300 {
+            if after == (false, false) { break; }
+            tokio::time::sleep(std::time::Duration::from_millis(10)).await;
+            after = fx.listed();
+        }
+        let b = |x: (bool, bool)| format!("{},{}", x.0 as u8, x.1 as u8);
+        let ups: Vec<String> = fx.updates().iter().map(|u| show_update(&fx, u)).collect();
+        println!("listed-before:{} listed-up:{} listed-after:{} updates:{}", b(before), b(during), b(after), ups.join(" "));
+    });
+}
+
 pub fn special(name: &str, _args: &[String]) -> bool {
+    if name == "bstream-gauge" { gauge_probe(); return true; }
+    if name == "bstream-e2e" {
+        e2e(_args.first().map(|s| s.as_str()).unwrap_or("close"), _args.get(1).and_then(|s| s.parse().ok()));
+        return true;
+    }
     if name == "bstream-render" {
         // one descriptor per stdin line -> hex of the BMP message
         use std::io::BufRead;
